@@ -29,4 +29,5 @@ def run(rep, fb, tier):
     _pr5.rule_py_self_attrs(rep)
     __import__("vf.rules.pyrules3", fromlist=["x"]).rule_py_numba_partition_cursor(rep)
     __import__("vf.rules.pyrules3", fromlist=["x"]).rule_py_numba_partition_start(rep)
+    __import__("vf.rules.pyrules4", fromlist=["x"]).rule_py_numba_view_start_compose(rep)
     rep.units = fb.units + ["src/awkward/_connect/_numba/*.py, _libawkward.py (ast)"]
